@@ -1,5 +1,6 @@
 (* Proofs/PinTest_band2.v -- compiled copy of Props/pending/C04_band2.v.txt under the header of Props/C04.v (plus the
-   example matrix ex_S of that file): shows that the pinned blocks compile as they stand. *)
+   example matrices ex_S, ex_K, ex_K' and one Example of that file, copied verbatim): shows that the pinned blocks
+   compile as they stand. *)
 From Coq Require Import List Arith ZArith QArith Qcanon Lia Floats.
 From OV Require Import Base.Panic Base.Arith Base.Flat Model.Vector Model.Matrix Model.Banded Inst.QcInst Inst.FloatInst Proofs.Banded Proofs.BandedLU Proofs.BandedTotal Proofs.BandedComplete Proofs.BandedDet Proofs.BandedHist Proofs.BandedEdit Proofs.BandedFill Legacy.C04Refuted.
 Import ListNotations.
@@ -8,6 +9,17 @@ Local Open Scope nat_scope.
 Definition ex_S : banded AQ :=
   @mkB AQ 4 2 1 (@mkM AQ [q 77 1; q (-13) 1; q 0 1; q 2 1;    q 5 7; q (-3) 1; q 1 1; q 1 1;
                           q 1 1; q 4 1; q (-1) 1; q 2 1;      q 2 1; q 0 1; q 3 1; q 1000 1] 4 4).
+Definition ex_K : banded AQ :=
+  @mkB AQ 2 1 1 (@mkM AQ [q 77 1; q 0 1; q 1 1;   q 1 1; q 5 1; q (-13) 1] 2 3).
+Definition ex_K' : banded AQ :=
+  @mkB AQ 2 1 1 (@mkM AQ [q 0 1; q 0 1; q 1 1;   q 1 1; q 5 1; q 1000 1] 2 3).
+Example band_solve_padding_independent_nonvacuous :
+  same_in_matrix_slots ex_K ex_K' /\ compact ex_K' <> compact ex_K.
+Proof.
+  split; [|intros E; discriminate E]. split; [repeat split|]. repeat split.
+  intros i j Hi Hj. cbn in Hi, Hj.
+  destruct i as [|[|i]]; try lia; destruct j as [|[|j]]; try lia; intros Hb; try discriminate Hb; vm_compute; reflexivity.
+Qed.
 
 (* ==== round two, package band2: blocks to append to Props/C04.v (compiled copy: Proofs/PinTest_band2.v) ==== *)
 
@@ -85,3 +97,74 @@ Print Assumptions band_wide_panics.
 Example band_wide_panics_nonvacuous :
   wfB (@band_new AQ 2 3 0 (q 1 1)) /\ 2 < 3 /\ @band_det AQ (@band_new AQ 2 3 0 (q 1 1)) = Panic Index.
 Proof. split; [apply band_new_wf|]. split; [lia|]. vm_compute. reflexivity. Qed.
+
+(* ---- padding never reaches a result of the compact LU, over ANY arithmetic -- binary64 with NaN or infinite padding
+   included; no ring or field law, no hypothesis on the kernel, no bound on m1: two well-formed bands that agree on every
+   in-matrix slot get the same determinant and the same solution, or the same panic.  (Lockstep proof,
+   Proofs/BandedDet2Pad.v: the two runs choose the same pivots, make the same exchanges, store the same multipliers, and
+   their work matrices agree on every slot whose column lies inside the matrix; padding values only flow into padding
+   slots.)  This supersedes the reading "on a nonsingular band over a field" of band_solve_padding_independent. ---- *)
+From OV Require Import Proofs.BandedDet2Pad Proofs.BandedDet2Cor.
+Theorem band_det_padding_independent : forall (A : Arith) (B B' : banded A),
+  wfB B -> same_in_matrix_slots B B' -> band_det B' = band_det B.
+Proof. intros A B B'. exact (band_det_padding_lemma B B'). Qed.
+Check band_det_padding_independent : forall (A : Arith) (B B' : banded A),
+  wfB B -> same_in_matrix_slots B B' -> band_det B' = band_det B.
+Print Assumptions band_det_padding_independent.
+Theorem band_solve_padding_independent_any : forall (A : Arith) (B B' : banded A) (b : list A),
+  wfB B -> same_in_matrix_slots B B' -> band_solve B' b = band_solve B b.
+Proof. intros A B B' b. exact (band_solve_padding_any_lemma B B' b). Qed.
+Check band_solve_padding_independent_any : forall (A : Arith) (B B' : banded A) (b : list A),
+  wfB B -> same_in_matrix_slots B B' -> band_solve B' b = band_solve B b.
+Print Assumptions band_solve_padding_independent_any.
+(* non-vacuity at binary64: [[2,1],[1,5]] (m1 = m2 = 1) once with NaN and once with 0 / 7 in the two padding slots *)
+Definition ex_F : banded AF := @mkB AF 2 1 1 (@mkM AF [nan; 2; 1;   1; 5; nan]%float 2 3).
+Definition ex_F' : banded AF := @mkB AF 2 1 1 (@mkM AF [0; 2; 1;   1; 5; 7]%float 2 3).
+Example band_padding_independent_nonvacuous :
+  wfB ex_F /\ same_in_matrix_slots ex_F ex_F' /\ compact ex_F' <> compact ex_F /\
+  wfB ex_K /\ same_in_matrix_slots ex_K ex_K' /\ compact ex_K' <> compact ex_K.
+Proof.
+  split; [repeat split|]. split.
+  { split; [repeat split|]. repeat split.
+    intros i j Hi Hj. cbn in Hi, Hj.
+    destruct i as [|[|i]]; try lia; destruct j as [|[|j]]; try lia; intros Hb; try discriminate Hb; vm_compute; reflexivity. }
+  split.
+  { intros E. apply (f_equal (fun m : matrix AF => PrimFloat.eqb (nth 5 (buf m) 0%float) (nth 5 (buf m) 0%float))) in E.
+    vm_compute in E. discriminate E. }
+  split; [repeat split|]. exact band_solve_padding_independent_nonvacuous.
+Qed.
+
+(* ---- the hypothesis m1 <= n dropped from soundness: on EVERY well-formed band whatever band_solve returns solves the
+   dense twin's system (for m1 > n it returns nothing, band_wide_panics) ---- *)
+Theorem band_solve_sound_all : forall (A : Arith), FieldLaws A -> forall (B : banded A) (b x : list A),
+  wfB B -> length b = bn B -> band_solve B b = Ok x -> length x = bn B /\ dense_mulv B x = b.
+Proof. intros A FL B b x. exact (band_solve_sound_all_lemma FL B b x). Qed.
+Check band_solve_sound_all : forall (A : Arith), FieldLaws A -> forall (B : banded A) (b x : list A),
+  wfB B -> length b = bn B -> band_solve B b = Ok x -> length x = bn B /\ dense_mulv B x = b.
+Print Assumptions band_solve_sound_all.
+
+(* ---- every (n, m1, m2), every right-hand side of the right length: an exact answer, or the division by a zero pivot
+   of the solver's own factorisation (m1 <= n), or the index panic of the left shift (m1 > n); nothing else ---- *)
+Theorem band_solve_trichotomy : forall (A : Arith), FieldLaws A -> forall (B : banded A) (b : list A),
+  wfB B -> length b = bn B ->
+  (exists x, band_solve B b = Ok x /\ length x = bn B /\ dense_mulv B x = b) \/
+  (bm1 B <= bn B /\ band_solve B b = Panic DivZero /\
+   exists auN alN indexN dN,
+     decompose_gen false B (compact B) (mat_new (bn B) (bm1 B) zero) (repeat 0 (bn B)) = Ok (auN, alN, indexN, dN) /\
+     exists i, i < bn B /\ mat_at auN (bm1 B + bm2 B + 1) i 0 = zero) \/
+  (bn B < bm1 B /\ band_solve B b = Panic Index).
+Proof. intros A FL B b. exact (band_solve_trichotomy_lemma FL B b). Qed.
+Check band_solve_trichotomy : forall (A : Arith), FieldLaws A -> forall (B : banded A) (b : list A),
+  wfB B -> length b = bn B ->
+  (exists x, band_solve B b = Ok x /\ length x = bn B /\ dense_mulv B x = b) \/
+  (bm1 B <= bn B /\ band_solve B b = Panic DivZero /\
+   exists auN alN indexN dN,
+     decompose_gen false B (compact B) (mat_new (bn B) (bm1 B) zero) (repeat 0 (bn B)) = Ok (auN, alN, indexN, dN) /\
+     exists i, i < bn B /\ mat_at auN (bm1 B + bm2 B + 1) i 0 = zero) \/
+  (bn B < bm1 B /\ band_solve B b = Panic Index).
+Print Assumptions band_solve_trichotomy.
+Example band_solve_trichotomy_nonvacuous :   (* all three outcomes occur *)
+  is_ok (@band_solve AQ ex_S [q 2 1; q (-1) 1; q 6 1; q 5 1]) = true /\
+  @band_solve AQ (@band_new AQ 2 1 1 (q 0 1)) [q 1 1; q 1 1] = Panic DivZero /\
+  @band_solve AQ (@band_new AQ 2 3 0 (q 1 1)) [q 1 1; q 1 1] = Panic Index.
+Proof. repeat split; vm_compute; reflexivity. Qed.
